@@ -5,9 +5,9 @@ import Mhd.Proofs.TmoFn
 namespace Mhd.Tmo
 open Mhd.Gen.Tmo
 
-/-- the variant with all four C10 repairs (the select-loop flag is arbitrary) -/
+/-- the variant with all five C10 repairs (the select-loop flag is arbitrary) -/
 def Fixed (v : Variant) : Prop :=
-  v.optSorted = true ∧ v.optSusp = true ∧ v.stampNew = true ∧ v.hintSafe = true
+  v.optSorted = true ∧ v.optSusp = true ∧ v.stampNew = true ∧ v.hintSafe = true ∧ v.actSorted = true
 
 /-- largest timeout that can be configured: `unsigned int` seconds as the harness allows, in ms -/
 def tmoMax : Nat := 4000000 * msPerSec
@@ -15,6 +15,7 @@ def tmoMax : Nat := 4000000 * msPerSec
 @[simp] theorem set_c (d : Daemon) (i j : Id) (x : Conn) : (d.set i x).c j = if j = i then x else d.c j := rfl
 @[simp] theorem set_cfg (d : Daemon) (i : Id) (x : Conn) : (d.set i x).cfg = d.cfg := rfl
 @[simp] theorem set_now (d : Daemon) (i : Id) (x : Conn) : (d.set i x).now = d.now := rfl
+@[simp] theorem set_back (d : Daemon) (i : Id) (x : Conn) : (d.set i x).back = d.back := rfl
 @[simp] theorem set_used (d : Daemon) (i : Id) (x : Conn) : (d.set i x).used = d.used := rfl
 @[simp] theorem set_newL (d : Daemon) (i : Id) (x : Conn) : (d.set i x).newL = d.newL := rfl
 @[simp] theorem set_conns (d : Daemon) (i : Id) (x : Conn) : (d.set i x).conns = d.conns := rfl
@@ -51,8 +52,9 @@ structure Inv (d : Daemon) : Prop where
   usedAll : ∀ i, i ∈ d.newL ∨ i ∈ d.conns ∨ i ∈ d.susp ∨ i ∈ d.cleanup → i ∈ d.used
   ready : ∀ i, i ∈ d.eready ∨ i ∈ d.kq → i ∈ d.conns ∨ i ∈ d.cleanup
   nonEpoll : d.cfg.epoll = false → d.eready = [] ∧ d.kq = []
-  -- temporal part (monotone clock)
-  laLe : ∀ i, (d.c i).la ≤ d.now
+  -- temporal part: no stamp lies beyond the highest value the clock has shown (`now + back`);
+  -- the order of the normal list does not depend on the clock at all
+  laLe : ∀ i, (d.c i).la ≤ d.now + d.back
   sorted : d.cfg.dtmo ≠ 0 → d.normal.Pairwise (fun a b => (d.c b).la ≤ (d.c a).la)
   tmoB : ∀ i, (d.c i).tmo ≤ tmoMax
   dtmoB : d.cfg.dtmo ≤ tmoMax
@@ -69,7 +71,7 @@ theorem inv_set_iness {d : Daemon} (h : Inv d) (i : Id) (x : Conn)
     intro j; by_cases hj : j = i <;> simp [hj, h1, h2, h3]
   constructor
   all_goals try simp only [set_fault, set_conns, set_normal, set_manual, set_susp, set_newL, set_cleanup, set_used,
-    set_eready, set_kq, set_cfg, set_now, (key _).1, (key _).2.1, (key _).2.2]
+    set_eready, set_kq, set_cfg, set_now, set_back, (key _).1, (key _).2.1, (key _).2.2]
   · exact h.nofault
   · exact h.ndConns
   · exact h.ndNormal
@@ -96,7 +98,7 @@ theorem inv_set_iness {d : Daemon} (h : Inv d) (i : Id) (x : Conn)
 
 
 /-- normalise projections of `Daemon.set` -/
-macro "nrm" : tactic => `(tactic| simp only [set_c, set_cfg, set_now, set_used, set_newL, set_conns, set_normal,
+macro "nrm" : tactic => `(tactic| simp only [set_c, set_cfg, set_now, set_back, set_used, set_newL, set_conns, set_normal,
   set_manual, set_susp, set_cleanup, set_eready, set_kq, set_fault, la_def] at *)
 
 theorem sorted_congr {l : List Id} {f g : Id → Nat} (hfg : ∀ a, a ∈ l → f a = g a)
@@ -130,16 +132,18 @@ macro "facts" h:ident j:ident : tactic => `(tactic|
     matches its timeout.  `d'` is described relative to `d`. -/
 theorem inv_activate {d d' : Daemon} (h : Inv d) (i : Id)
     (hnc : i ∉ d.conns) (hncl : i ∉ d.cleanup) (hnn : i ∉ d.newL) (hu : i ∈ d.used)
-    (hcfg : d'.cfg = d.cfg) (hnow : d'.now = d.now) (hfault : d'.fault = d.fault) (hused : d'.used = d.used)
+    (hcfg : d'.cfg = d.cfg) (hnow : d'.now = d.now) (hback : d'.back = d.back) (hfault : d'.fault = d.fault) (hused : d'.used = d.used)
     (hnewL : d'.newL = d.newL) (hcleanup : d'.cleanup = d.cleanup)
     (hconns : d'.conns = i :: d.conns) (hsusp : d'.susp = d.susp.erase i)
-    (hnormal : d'.normal = if (d'.c i).tmo = d.cfg.dtmo then i :: d.normal else d.normal)
+    (hnormal : if (d'.c i).tmo = d.cfg.dtmo then
+        ((∀ j, j ∈ d'.normal ↔ j = i ∨ j ∈ d.normal) ∧ d'.normal.Nodup ∧
+          (d.cfg.dtmo ≠ 0 → d'.normal.Pairwise (fun a b => (d'.c b).la ≤ (d'.c a).la)))
+      else d'.normal = d.normal)
     (hmanual : d'.manual = if (d'.c i).tmo = d.cfg.dtmo then d.manual else i :: d.manual)
     (hnde : d'.eready.Nodup) (hnep : d'.cfg.epoll = false → d'.eready = [] ∧ d'.kq = [])
     (hrdy : ∀ j, j ∈ d'.eready ∨ j ∈ d'.kq → j = i ∨ j ∈ d.eready ∨ j ∈ d.kq)
     (hc : ∀ j, j ≠ i → d'.c j = d.c j)
-    (hxs : (d'.c i).suspended = false) (hxl : (d'.c i).la ≤ d.now) (hxt : (d'.c i).tmo ≤ tmoMax)
-    (hhead : (d'.c i).tmo = d.cfg.dtmo → d.cfg.dtmo ≠ 0 → (d'.c i).la = d.now) :
+    (hxs : (d'.c i).suspended = false) (hxl : (d'.c i).la ≤ d.now + d.back) (hxt : (d'.c i).tmo ≤ tmoMax) :
     Inv d' := by
   have eS : ∀ j, j ∈ d.susp.erase i ↔ j ≠ i ∧ j ∈ d.susp := fun j => List.Nodup.mem_erase_iff h.ndSusp
   have ndS := List.Nodup.erase i h.ndSusp
@@ -148,7 +152,7 @@ theorem inv_activate {d d' : Daemon} (h : Inv d) (i : Id)
   constructor
   case nofault => rw [hfault]; exact h.nofault
   case ndConns => rw [hconns]; exact List.nodup_cons.2 ⟨hnc, h.ndConns⟩
-  case ndNormal => rw [hnormal]; split; exact List.nodup_cons.2 ⟨hin, h.ndNormal⟩; exact h.ndNormal
+  case ndNormal => split at hnormal; exact hnormal.2.1; rw [hnormal]; exact h.ndNormal
   case ndManual => rw [hmanual]; split; exact h.ndManual; exact List.nodup_cons.2 ⟨him, h.ndManual⟩
   case ndSusp => rw [hsusp]; exact ndS
   case ndNew => rw [hnewL]; exact h.ndNew
@@ -157,30 +161,27 @@ theorem inv_activate {d d' : Daemon} (h : Inv d) (i : Id)
   case ndEready => exact hnde
   case nonEpoll => exact hnep
   case sorted =>
-    rw [hcfg, hnormal]; intro hd
+    rw [hcfg]; intro hd
     have hso := h.sorted hd
     have hcong : d.normal.Pairwise (fun a b => (d'.c b).la ≤ (d'.c a).la) := by
       refine sorted_congr ?_ hso
       intro a ha; have : a ≠ i := fun e => hin (e ▸ ha); rw [hc a this]
-    split
-    · rename_i ht
-      refine List.pairwise_cons.2 ⟨?_, hcong⟩
-      intro b hb; have hbi : b ≠ i := fun e => hin (e ▸ hb)
-      rw [hc b hbi, hhead ht hd]; exact h.laLe b
-    · exact hcong
+    split at hnormal
+    · exact hnormal.2.2 hd
+    · rw [hnormal]; exact hcong
   all_goals
     intro j
     facts h j
     have hcj := hc j
     by_cases e : j = i
-    · subst e; grind
-    · grind
+    · subst e; split at hnormal <;> grind
+    · split at hnormal <;> grind
 
 
 /-- A live connection gets a new stamp and/or timeout and is moved to the timeout list that matches
     (`d'.normal` is characterised by its members, absence of duplicates and order). -/
 theorem inv_retime {d d' : Daemon} (h : Inv d) (i : Id) (hi : i ∈ d.conns)
-    (hcfg : d'.cfg = d.cfg) (hnow : d'.now = d.now) (hfault : d'.fault = d.fault) (hused : d'.used = d.used)
+    (hcfg : d'.cfg = d.cfg) (hnow : d'.now = d.now) (hback : d'.back = d.back) (hfault : d'.fault = d.fault) (hused : d'.used = d.used)
     (hnewL : d'.newL = d.newL) (hcleanup : d'.cleanup = d.cleanup)
     (hconns : d'.conns = d.conns) (hsusp : d'.susp = d.susp)
     (hnormal : if (d'.c i).tmo = d.cfg.dtmo then
@@ -192,7 +193,7 @@ theorem inv_retime {d d' : Daemon} (h : Inv d) (i : Id) (hi : i ∈ d.conns)
     (hnde : d'.eready.Nodup) (hnep : d'.cfg.epoll = false → d'.eready = [] ∧ d'.kq = [])
     (hrdy : ∀ j, j ∈ d'.eready ∨ j ∈ d'.kq → j = i ∨ j ∈ d.eready ∨ j ∈ d.kq)
     (hc : ∀ j, j ≠ i → d'.c j = d.c j)
-    (hxs : (d'.c i).suspended = false) (hxl : (d'.c i).la ≤ d.now) (hxt : (d'.c i).tmo ≤ tmoMax) :
+    (hxs : (d'.c i).suspended = false) (hxl : (d'.c i).la ≤ d.now + d.back) (hxt : (d'.c i).tmo ≤ tmoMax) :
     Inv d' := by
   have eN : ∀ j, j ∈ d.normal.erase i ↔ j ≠ i ∧ j ∈ d.normal := fun j => List.Nodup.mem_erase_iff h.ndNormal
   have eM : ∀ j, j ∈ d.manual.erase i ↔ j ≠ i ∧ j ∈ d.manual := fun j => List.Nodup.mem_erase_iff h.ndManual
@@ -232,7 +233,7 @@ theorem inv_retime {d d' : Daemon} (h : Inv d) (i : Id) (hi : i ∈ d.conns)
 /-- A live connection leaves `connections` and its timeout list: into the suspended list
     (`toSusp`, flag set) or into the cleanup list. -/
 theorem inv_deactivate {d d' : Daemon} (h : Inv d) (i : Id) (hi : i ∈ d.conns) (toSusp : Bool)
-    (hcfg : d'.cfg = d.cfg) (hnow : d'.now = d.now) (hfault : d'.fault = d.fault) (hused : d'.used = d.used)
+    (hcfg : d'.cfg = d.cfg) (hnow : d'.now = d.now) (hback : d'.back = d.back) (hfault : d'.fault = d.fault) (hused : d'.used = d.used)
     (hnewL : d'.newL = d.newL)
     (hcleanup : d'.cleanup = if toSusp then d.cleanup else i :: d.cleanup)
     (hconns : d'.conns = d.conns.erase i)
@@ -277,14 +278,14 @@ theorem inv_deactivate {d d' : Daemon} (h : Inv d) (i : Id) (hi : i ∈ d.conns)
 /-- the record of a connection that is in no timeout list changes (suspended connection:
     override or nothing essential; queued or unknown id: anything goes for stamp ≤ now) -/
 theorem inv_offlist {d d' : Daemon} (h : Inv d) (i : Id) (hnc : i ∉ d.conns) (hnn : i ∉ d.newL)
-    (hcfg : d'.cfg = d.cfg) (hnow : d'.now = d.now) (hfault : d'.fault = d.fault) (hused : d'.used = d.used)
+    (hcfg : d'.cfg = d.cfg) (hnow : d'.now = d.now) (hback : d'.back = d.back) (hfault : d'.fault = d.fault) (hused : d'.used = d.used)
     (hnewL : d'.newL = d.newL) (hcleanup : d'.cleanup = d.cleanup)
     (hconns : d'.conns = d.conns) (hsusp : d'.susp = d.susp)
     (hnormal : d'.normal = d.normal) (hmanual : d'.manual = d.manual)
     (hnde : d'.eready.Nodup) (hnep : d'.cfg.epoll = false → d'.eready = [] ∧ d'.kq = [])
     (hrdy : ∀ j, j ∈ d'.eready ∨ j ∈ d'.kq → j ∈ d.eready ∨ j ∈ d.kq)
     (hc : ∀ j, j ≠ i → d'.c j = d.c j)
-    (hxs : (d'.c i).suspended = (d.c i).suspended ∨ i ∉ d.susp) (hxl : (d'.c i).la ≤ d.now)
+    (hxs : (d'.c i).suspended = (d.c i).suspended ∨ i ∉ d.susp) (hxl : (d'.c i).la ≤ d.now + d.back)
     (hxt : (d'.c i).tmo ≤ tmoMax) :
     Inv d' := by
   have hin : i ∉ d.normal := fun hm => hnc ((h.connsIff i).2 (Or.inl hm))
@@ -315,7 +316,7 @@ theorem inv_offlist {d d' : Daemon} (h : Inv d) (i : Id) (hnc : i ∉ d.conns) (
 
 /-- changes that touch neither a list nor stamp/timeout/suspended of any connection -/
 theorem inv_iness {d d' : Daemon} (h : Inv d)
-    (hcfg : d'.cfg = d.cfg) (hnow : d'.now = d.now) (hfault : d'.fault = d.fault) (hused : d'.used = d.used)
+    (hcfg : d'.cfg = d.cfg) (hnow : d'.now = d.now) (hback : d'.back = d.back) (hfault : d'.fault = d.fault) (hused : d'.used = d.used)
     (hnewL : d'.newL = d.newL) (hcleanup : d'.cleanup = d.cleanup)
     (hconns : d'.conns = d.conns) (hsusp : d'.susp = d.susp)
     (hnormal : d'.normal = d.normal) (hmanual : d'.manual = d.manual)
